@@ -11,6 +11,7 @@ CONSTANTS
   MaxFatal = 1
   Timer = FALSE
   EmitMode = "state"
+  Record = TRUE
 VIEW View0
 INVARIANTS TypeOK PerSeriesOrder NoDup NoDropLeak Conservation ShardFifo Complete EmitState EmitFinal
 ACTION_CONSTRAINT Emit
